@@ -63,8 +63,9 @@ static int create_ux(struct xcm_socket *s)
 	.sun_family = AF_UNIX
     };
 
-    ctl_derive_path(ctl_dir, getpid(), s->sock_id,
-		    addr.sun_path, UNIX_PATH_MAX);
+    if (ctl_derive_path(ctl_dir, getpid(), s->sock_id,
+			addr.sun_path, UNIX_PATH_MAX) < 0)
+	return -1;
 
     unlink(addr.sun_path);
 
